@@ -73,8 +73,7 @@ def check_case(case, ctx=None):
     if case["edit"]:
         casg = gfi_hist.constraint_from_picks(run, case["picks"])
         tr, _w, _rd, _b = Update(gfi.build_chm(casg, "or")).edit(k1, tr, Diff.no_change(jargs))
-        masg = dict(run.assignment())
-        masg.update(casg)
+        masg = gfi_hist.model_after_update(node, run.assignment(), casg)
         run, _ = gfi.check_trace_against_model(tr, node, nargs, masg, "edit:", case, Violation, allow_fresh=True)
     sites = _sites(node)
     checked = 0
